@@ -144,7 +144,7 @@ def parse(s):
 
 CASTS = re.compile(r"\(\s*(?:unsigned long long|unsigned long|size_t|int|JDIMENSION)\s*\)")
 TABLES = {"tjMCUWidth", "tjMCUHeight"}
-CONSTS = {"TJ_NUMSAMP", "INT_MAX", "DCTSIZE", "NULL"}
+CONSTS = {"TJ_NUMSAMP", "INT_MAX", "INT_MIN", "DCTSIZE"}
 
 
 def emit(e, mode, checks, params):
@@ -435,22 +435,26 @@ g = B.find(r"nc = \(" + E + r"\);", "nc = ...")
 cdef("bs_nc", ["subsamp"], g.group(1), "math", "tj3YUVBufSize: number of planes")
 B.find(r"for \(i = 0; i < nc; i\+\+\) \{", "plane loop")
 B.find(r"int pw = tj3YUVPlaneWidth\(i, width, subsamp\);", "pw = tj3YUVPlaneWidth(i, width, subsamp)")
-g = B.find(r"int stride = " + E + r";", "int stride = ...")
-cdef("bs_stride", ["pw", "align"], g.group(1), "int", "tj3YUVBufSize: row stride (int arithmetic)")
+g = B.find(r"unsigned long long stride = " + E + r";", "unsigned long long stride = ...")
+if "(unsigned long long)pw" not in g.group(1):
+    die("tj3YUVBufSize: the row stride is no longer padded in unsigned long long: " + g.group(1))
+cdef("bs_stride", ["pw", "align"], g.group(1), "ull", "tj3YUVBufSize: row stride (unsigned long long arithmetic)")
 B.find(r"int ph = tj3YUVPlaneHeight\(i, height, subsamp\);", "ph = tj3YUVPlaneHeight(i, height, subsamp)")
 g = B.find(r"if \(" + E + r"\) return 0;", "zero-dimension test")
 cdef("bs_zero", ["pw", "ph"], g.group(1), "math", "tj3YUVBufSize: zero-dimension test")
-g = B.find(r"else retval \+= " + E + r";", "retval += ...")
-if "(unsigned long long)stride" not in g.group(1):
-    die("tj3YUVBufSize: the plane size is no longer accumulated in unsigned long long")
-cdef("bs_term", ["stride", "ph"], g.group(1), "ull", "tj3YUVBufSize: size of one plane")
+g = B.find(r"if \(" + E + r"\)" + W + r'THROWG\("Image or row alignment is too large", 0\);', "stride > INT_MAX test")
+if "(unsigned long long)INT_MAX" not in g.group(1):
+    die("tj3YUVBufSize: the stride test is not an unsigned long long comparison")
+cdef("bs_stride_toolarge", ["stride"], g.group(1), "math", "tj3YUVBufSize: stride does not fit an int")
+g = B.find(r"retval \+= " + E + r";", "retval += ...")
+cdef("bs_term", ["stride", "ph"], g.group(1), "ull", "tj3YUVBufSize: size of one plane (stride is unsigned long long)")
 B.find(ULCHK, "ULONG_MAX check")
 B.find(r"bailout:" + W + r"return \(size_t\)retval;", "return (size_t)retval")
 
 # ------------------------------------------------------------------ tj3YUVPlaneSize
 B = Body("tj3YUVPlaneSize")
 g = B.find(r"if \(" + E + r"\)" + W + r'THROWG\("Invalid argument", 0\);', "argument guard")
-cdef("ps_guard", ["width", "height", "subsamp"], g.group(1), "math", "tj3YUVPlaneSize: argument guard")
+cdef("ps_guard", ["width", "height", "subsamp", "stride"], g.group(1), "math", "tj3YUVPlaneSize: argument guard")
 B.find(r"pw = tj3YUVPlaneWidth\(componentID, width, subsamp\);" + W + r"ph = tj3YUVPlaneHeight\(componentID, height, subsamp\);", "pw/ph calls")
 g = B.find(r"if \(" + E + r"\) return 0;", "zero-dimension test")
 cdef("ps_zero", ["pw", "ph"], g.group(1), "math", "tj3YUVPlaneSize: zero-dimension test")
@@ -475,7 +479,7 @@ UNI = [("tj3CompressFromYUV8", "src", "tj3CompressFromYUVPlanes8",
 uni_names = []
 OUT.append("(* one unified-buffer function: translated stride/offset/check expressions; legacy_* = the chroma dimension is\n"
            "   obtained through tjPlaneWidth/tjPlaneHeight, whose error value is -1 instead of 0 *)")
-OUT.append("Record uni_fn := { u_stride0 : Z -> Z -> Z; u_stride0_ok : Z -> Z -> bool; u_stride1 : Z -> Z -> Z; u_stride1_ok : Z -> Z -> bool;\n"
+OUT.append("Record uni_fn := { u_padguard : Z -> Z -> Z -> bool; u_stride0 : Z -> Z -> Z; u_stride0_ok : Z -> Z -> bool; u_stride1 : Z -> Z -> Z; u_stride1_ok : Z -> Z -> bool;\n"
            "  u_toolarge : Z -> Z -> Z -> Z -> bool; u_off1 : Z -> Z -> Z; u_off1_ok : Z -> Z -> bool; u_off2 : Z -> Z -> Z; u_off2_ok : Z -> Z -> bool;\n"
            "  u_legacy_pw1 : bool; u_legacy_ph1 : bool }.\n")
 for fn, sd, callee, callrx in UNI:
@@ -493,6 +497,8 @@ for fn, sd, callee, callrx in UNI:
                r"height = TJSCALED\(dinfo->image_height, this->scalingFactor\);", "scaled width/height")
     B.find(r"pw0 = tj3YUVPlaneWidth\(0, width, this->subsamp\);" + W + r"ph0 = tj3YUVPlaneHeight\(0, height, this->subsamp\);", "pw0/ph0")
     B.find(r"%s\[0\] = %sBuf;" % (pl, sd), "plane 0 = buffer start")
+    g = B.find(r"if \(" + E + r"\)" + W + r'THROW\("Image or row alignment is too large"\);', "luma dimension / padding guard")
+    cdef("u%s_padguard" % short, ["pw0", "ph0", "align"], g.group(1), "math", fn + ": guard before the int PAD")
     g = B.find(r"strides\[0\] = " + E + r";", "strides[0] = ...")
     cdef("u%s_stride0" % short, ["pw0", "align"], g.group(1), "int", fn + ": luma stride")
     B.find(r"if \(this->subsamp == TJSAMP_GRAY\) \{" + W + r"strides\[1\] = strides\[2\] = 0;" + W +
@@ -511,10 +517,10 @@ for fn, sd, callee, callrx in UNI:
     g = B.find(r"%s\[2\] = %s\[1\] \+ " % (pl, pl) + E + r";", "plane 2 pointer")
     cdef("u%s_off2" % short, ["strides1", "ph1"], g.group(1), "int", fn + ": offset of plane 2 relative to plane 1")
     B.find(callrx, "call of " + callee + " with the planes/strides computed above")
-    OUT.append("Definition u%s : uni_fn := {| u_stride0 := u%s_stride0; u_stride0_ok := u%s_stride0_ok; u_stride1 := u%s_stride1; "
+    OUT.append("Definition u%s : uni_fn := {| u_padguard := u%s_padguard; u_stride0 := u%s_stride0; u_stride0_ok := u%s_stride0_ok; u_stride1 := u%s_stride1; "
                "u_stride1_ok := u%s_stride1_ok;\n  u_toolarge := u%s_toolarge; u_off1 := u%s_off1; u_off1_ok := u%s_off1_ok; u_off2 := u%s_off2; "
                "u_off2_ok := u%s_off2_ok;\n  u_legacy_pw1 := %s; u_legacy_ph1 := %s |}.\n"
-               % ((short,) * 10 + ("true" if legacy_w else "false", "true" if legacy_h else "false")))
+               % ((short,) * 11 + ("true" if legacy_w else "false", "true" if legacy_h else "false")))
     uni_names.append(short)
 
 # ------------------------------------------------------------------ per-plane codec paths
